@@ -267,6 +267,14 @@ pub fn geom(ty: Ty, c: GenCfg) -> BoxedStrategy<Geom> {
     // one shape in twelve has an all-(signed-)zero Z and/or M array: -0.0 == 0.0, yet the bits differ
     (geom_placed(ty, c), 0u8..36)
         .prop_map(move |(mut g, flat)| {
+            if (3..6).contains(&flat) && ty.carries_m() && c.nan_zm {
+                // every measure is the NO_DATA constant: "this shape has no measures"
+                for p in g.parts.iter_mut() {
+                    for v in p.pts.iter_mut() {
+                        v[3] = F::of(NO_DATA);
+                    }
+                }
+            }
             if flat < 3 {
                 for p in g.parts.iter_mut() {
                     for v in p.pts.iter_mut() {
